@@ -129,8 +129,13 @@ class Com():
             })
 
         def add_str(s):
+            # Append to the last line of the command (not to a verification
+            # condition that may follow it).
             assert len(lines) > 0
-            lines[-1]['str'] += ';'
+            for line in reversed(lines):
+                if line['ty'] == 'com':
+                    line['str'] += ';'
+                    break
 
         def rec(cmd):
             nonlocal indent
